@@ -45,6 +45,11 @@ Theorem C07_begin_records_last_receipt : forall ixa ixs, ixs <> ixa -> forall it
   f_begin (fold_left (fun a iv => if fst iv =? ixs then match receipt_of (snd iv) with Some rn => Some rn | None => a end else a) its acc).
 Proof. exact begin_records_last_receipt. Qed.
 
+(* ... whatever number that is: every receipt number over all of N, 0000 included, is a number and not "none reported" *)
+Theorem C07_begin_records_any_receipt : forall ixa ixs rn v, ixs <> ixa -> receipt_of v = Some rn ->
+  run_handler (h_begin ixa ixs) f_begin None [(ixs, v)] = ROk rn.
+Proof. exact begin_records_any_receipt. Qed.
+
 (* a reservation whose replies never carried a receipt number is refused as incomplete (and by C07_begin_effect the map is untouched) *)
 Theorem C07_begin_without_receipt_is_incomplete : forall ixa ixs, ixs <> ixa -> forall its,
   (forall i v, In (i, v) its -> i <> ixa) -> (forall i v, In (i, v) its -> i = ixs -> receipt_of v = None) ->
@@ -113,3 +118,4 @@ Print Assumptions C07_consume_is_fold.
 Print Assumptions C07_begin_writes_only_its_reservation.
 Print Assumptions C07_refused_begin_is_silent.
 Print Assumptions C07_unknown_token_is_silent.
+Print Assumptions C07_begin_records_any_receipt.
